@@ -30,6 +30,15 @@ def rsaBlob (e n : Nat) : Bytes := str (strBytes "ssh-rsa") ++ mpint e ++ mpint 
 /-- RFC 4253 §6.6 "ssh-dss" -/
 def dsaBlob (p q g y : Nat) : Bytes := str (strBytes "ssh-dss") ++ mpint p ++ mpint q ++ mpint g ++ mpint y
 
+/-- fixed-width big-endian octets (SEC 1 §2.3.5 field element to octet string) -/
+def fixedBE : Nat → Nat → Bytes
+  | 0, _ => []
+  | w + 1, n => fixedBE w (n / 256) ++ [n % 256]
+
+/-- RFC 5656 §3.1: string "ecdsa-sha2-[identifier]", string [identifier], string Q (SEC 1 uncompressed point) -/
+def ecdsaBlob (cid : Bytes) (bl x y : Nat) : Bytes :=
+  str (strBytes "ecdsa-sha2-" ++ cid) ++ str cid ++ str (4 :: (fixedBE bl x ++ fixedBE bl y))
+
 /-- RFC 8709 §4 -/
 def ed25519Blob (k : Bytes) : Bytes := str (strBytes "ssh-ed25519") ++ str k
 
